@@ -59,6 +59,20 @@ def anchors(a: Anchors):
     a.raw("classifier_solver_code", PC, "PcaClassifier.__init__", "svd_solver passed to DaskPCA", clf_solver)
     a.fact("flat_rechunks_columns", PC, "PcaClassifier._image_flat", "reshape(n, -1).rechunk({1: -1})",
            lambda fn: "_flat_images=_input.reshape(self._n_image,-1)" in norm(ast.unparse(fn)) and "return_flat_images.rechunk({1:-1})" in norm(ast.unparse(fn)))
+    # ---- data path: what is centred / masked / projected ----
+    a.fact("fit_mean_is_global_column_mean", DP, "DaskPCA._fit", "self.mean_ = X.mean(0); X -= self.mean_ (before the SVD)",
+           lambda fn: (lambda t: "self.mean_=X.mean(0)X-=self.mean_ifsolverin{'full','tsqr'}:U,S,V=da.linalg.svd(X)" in t and t.count("self.mean_=") == 1)(norm(ast.unparse(fn))))
+    a.fact("transform_subtracts_mean_then_dots", DP, "DaskPCA.transform", "X = X - self.mean_; da.dot(X, self.components_.T)",
+           lambda fn: (lambda t: "ifself.mean_isnotNone:X=X-self.mean_X_transformed=da.dot(X,self.components_.T)" in t)(norm(ast.unparse(fn))))
+    a.fact("run_fits_masked", PC, "PcaClassifier.run", "fit(_image_flat(mask=True)); labels = kmeans.fit_predict(get_transform())",
+           lambda fn: (lambda t: "_flat_image=self._image_flat(mask=True)self._pca.fit(_flat_image)self._labels=self._kmeans.fit_predict(self.get_transform())" in t)(norm(ast.unparse(fn))))
+    a.fact("get_transform_masks", PC, "PcaClassifier.get_transform", "both branches project _image_flat(mask=True)",
+           lambda fn: (lambda t: t.count("self._image_flat(mask=True)") == 2 and t.count("self._image_flat(") == 2 and "returnself._pca.transform(flat).compute()" in t)(norm(ast.unparse(fn))))
+    a.fact("image_flat_mask_multiplies", PC, "PcaClassifier._image_flat", "mask=True -> self._image * self._mask",
+           lambda fn: (lambda t: "ifmask:_input=self._image*self._maskelse:_input=self._image" in t)(norm(ast.unparse(fn))))
+    a.fact("transform_method_masks", PC, "PcaClassifier.transform", "mask=True default; input * self._mask; pca.transform(flat)",
+           lambda fn: (lambda t: "ifmask:input=input*self._mask" in t and "returnself._pca.transform(flat).compute()" in t
+                       and [ast.unparse(d) for d in fn.args.defaults] == ["True"])(norm(ast.unparse(fn))))
     a.fact("classify_appends_label_column", LB, "LoaderBase.classify", "mole = molecules.copy(); features.with_columns(Series(label_name, labels)); replace",
            lambda fn: all(x in norm(ast.unparse(fn)) for x in ["mole=self.molecules.copy()", "mole.features=mole.features.with_columns(pl.Series(label_name,clf._labels))",
                                                                "new=self.replace(molecules=mole)", ".rechunk(('auto',)+shape)"]))
@@ -139,6 +153,55 @@ def oracle_pca(ck, rng):
                          oracle="pca_vs_exact_svd", measured=f)
 
 
+def corr_data_path(ck, rng):
+    """SVD certificate: the implementation's mean_, components_, singular_values_ and projections of a full decomposition are checked
+    in Coq (exact rational arithmetic) against the centred, masked stack -- for every chunking generated"""
+    import dask.array as da
+    from acryo.classification import PcaClassifier
+    from fractions import Fraction
+    cases = []
+    classes = {}
+    n = 10 if ck.tier == "quick" else 80
+    for i in range(n):
+        shape = [(2, 2, 2), (1, 2, 3), (2, 1, 2), (3, 2, 1)][i % 4]
+        F = int(np.prod(shape))
+        N = int(rng.integers(3, 8))
+        X = rng.integers(-4, 5, size=(N,) + shape).astype(np.float64)
+        mk = i % 3
+        mask = None if mk == 0 else rng.integers(0, 2, size=shape).astype(np.float64) if mk == 1 else rng.choice([0.0, 0.25, 0.5, 1.0], size=shape)
+        if mask is not None and mask.sum() == 0:
+            mask[(0,) * 3] = 1.0
+        chs = [None, (1,) + shape, (2, 1, 1, 1), (N,) + shape, (3, shape[0], 1, shape[2]), (2, shape[0], shape[1], 1)]
+        ch = chs[i % len(chs)]
+        stack = X if ch is None else da.from_array(X, chunks=ch)
+        r = min(N, F)
+        clf = PcaClassifier(stack, mask, n_components=r, n_clusters=2, seed=0).run()
+        mean = np.asarray(clf.pca.mean_, dtype=np.float64)
+        comps = np.asarray(clf.pca.components_, dtype=np.float64)
+        sv = np.asarray(clf.pca.singular_values_, dtype=np.float64)
+        proj = np.asarray(clf.get_transform(), dtype=np.float64)
+        m_ = np.ones(F) if mask is None else mask.ravel()
+        q = lambda v: ql(Fraction(float(v)).limit_denominator(10 ** 12))
+        term = (f"(check_pca {lst([q(v) for v in m_])} {lst([lst([q(v) for v in row.ravel()]) for row in X])} {natl(F)} {lst([q(v) for v in mean])} "
+                f"{lst([lst([q(v) for v in c_]) for c_ in comps])} {lst([q(v) for v in sv])} {lst([lst([q(v) for v in p_]) for p_ in proj])})")
+        kind = ["no mask", "binary mask", "soft mask"][mk] + (", image axes chunked" if ch and tuple(ch[1:]) != tuple(shape) else ", row chunks" if ch else ", numpy")
+        classes[kind] = classes.get(kind, 0) + 1
+        cases.append((term, {"N": N, "shape": list(shape), "mask": ["none", "binary", "soft"][mk], "chunks": ch, "singular_values": sv.tolist(),
+                             "stack": X.reshape(N, -1).tolist(), "mask_values": m_.tolist()}))
+        # a truncated run must return the leading part of the full decomposition (up to the sign of each component)
+        k = int(rng.integers(1, r + 1))
+        clf2 = PcaClassifier(stack, mask, n_components=k, n_clusters=2, seed=0).run()
+        sv2 = np.asarray(clf2.pca.singular_values_); c2 = np.asarray(clf2.pca.components_)
+        ck.oracle_count("truncated_is_leading_part", 1, 1)
+        gap_ok = [j for j in range(k) if (j == 0 or sv[j - 1] - sv[j] > 1e-6 * (1 + sv[0])) and (j + 1 >= r or sv[j] - sv[j + 1] > 1e-6 * (1 + sv[0]))]
+        if len(sv2) != k or np.abs(sv2 - sv[:k]).max() > 1e-8 * (1 + sv[0]) or any(abs(abs(c2[j] @ comps[j]) - 1) > 1e-6 for j in gap_ok):
+            ck.violation(what=f"PcaClassifier(n_components={k}) is not the leading part of the full decomposition: singular values {sv2.tolist()} vs {sv[:k].tolist()}",
+                         inp={"N": N, "shape": list(shape), "k": k, "chunks": ch, "stack": X.reshape(N, -1).tolist(), "mask_values": m_.tolist()},
+                         key={"site": "pca-truncation"}, oracle="truncated_is_leading_part")
+    ck.corr_run("svd_certificate", ["AcryoGen.Anchors_C18", "Acryo.C18.DataModel"], cases, shard=20, observable=True,
+                describe=lambda c: {"site": "svd-certificate", "mask": c["mask"]}, classes=classes)
+
+
 def oracle_labels(ck, rng):
     """classification through a loader with a scripted classifier: one label per molecule in molecule order, nothing else changes"""
     from acryo import SubtomogramLoader, BatchLoader, Molecules
@@ -191,13 +254,16 @@ def run(ck: common.Check):
     ck.design_ref = "DESIGN.md §6 C18"
     ck.trusted_base = TB
     ck.partial = ["the SVD itself (dask tsqr) and k-means are kernels: equality with exact PCA and cluster separation are numeric (oracle)",
-                  "the theorems cover the solver decision, the column-chunk precondition of the tall-skinny SVD and the label write-back"]
+                  "the theorems cover the solver decision, the column-chunk precondition of the tall-skinny SVD, the label write-back and the data "
+                  "path (what is masked, centred and projected; chunk-independence of the mean); the SVD returned by the kernel is validated "
+                  "per run as a certificate (orthonormal eigenvectors of Xc^T Xc, complete, descending) in exact rational arithmetic"]
     a = Anchors(common.REPO)
     anchors(a)
     ck.write_anchors(PID, a)
-    ck.build(["C18"], ["C18/Property.v"], extra=["C18/Model.v"])
+    ck.build(["C18"], ["C18/Property.v", "C18/PropertyData.v"], extra=["C18/Model.v", "C18/DataModel.v"])
     rng = np.random.default_rng(ck.seed + 1818)
     corr_solver(ck, rng)
+    corr_data_path(ck, np.random.default_rng(ck.seed + 181818))
     oracle_pca(ck, rng)
     oracle_labels(ck, rng)
 
